@@ -1,39 +1,37 @@
 (* C01 property theorems.  Only statements closed by [exact]; each followed by Print Assumptions.
    All are about the definitions of C01/Model.v that C01/Harness.v evaluates against the implementation. *)
-From Miller Require Import Base.Bytes Base.Record C01.Model C01.ProofsUtil C01.ProofsTsv C01.ProofsDkvp C01.ProofsCsv C01.ProofsCsv2.
+From Miller Require Import Base.Bytes Base.Record C01.Model C01.ProofsUtil C01.ProofsTsv C01.ProofsDkvp C01.ProofsCsv C01.ProofsCsv2 C01.ModelJson C01.ProofsJson C01.ModelXtab C01.ProofsXtab C01.ModelLite C01.ProofsLite.
 Open Scope char_scope.
 
 (* ---- TSV ---- *)
-(* the field codec is an exact inverse pair on every valid-UTF-8 byte string (any length, any content) *)
-Theorem C01_tsv_codec_inverse : forall s, utf8_valid s = true -> tsv_decode (tsv_encode s) = s.
+(* the field codec is an exact inverse pair on EVERY byte string (any length, any content, valid UTF-8 or not) *)
+Theorem C01_tsv_codec_inverse : forall s, tsv_decode (tsv_encode s) = s.
 Proof. exact tsv_codec_inverse. Qed.
 Print Assumptions C01_tsv_codec_inverse.
 
-(* ... and is NOT on arbitrary bytes: TSVEncodeField ranges over runes, so 0xff becomes U+FFFD *)
-Theorem C01_tsv_codec_inverse_refuted : exists s, tsv_decode (tsv_encode s) <> s.
-Proof. exact tsv_codec_not_inverse. Qed.
-Print Assumptions C01_tsv_codec_inverse_refuted.
-
-(* writer then reader is the identity on every record stream of the domain wf_tsv (rectangular, unique keys,
-   keys free of backslash/TAB/CR/LF, valid UTF-8, not a single empty column), LF or CRLF line endings,
-   with or without --allow-ragged-csv-input / key de-duplication; unbounded in records, fields, cell length *)
-Theorem C01_tsv_roundtrip_partial :
+(* writer then reader is the identity on every rectangular record stream with unique keys, keys and values of
+   ANY bytes (backslash, TAB, CR, LF, invalid UTF-8 included), LF or CRLF line endings, with or without
+   --allow-ragged-csv-input / key de-duplication; unbounded in records, fields, cell length.
+   The ONE exclusion (wf_tsv.not_single_empty) is the known finding tsv-single-column-empty-cell:
+   a single column whose key, or one of whose values, is empty. *)
+Theorem C01_tsv_roundtrip :
   forall crlf dedupe ragged recs, wf_tsv recs = true ->
   obind (write_tsv false crlf recs) (read_tsv dedupe ragged) = Some recs.
 Proof. exact tsv_roundtrip. Qed.
-Print Assumptions C01_tsv_roundtrip_partial.
-(* _partial: what is missing for the full statement is exactly the two refutations below *)
+Print Assumptions C01_tsv_roundtrip.
 
-(* the reader does not decode header fields: a key containing a backslash does not round-trip *)
-Theorem C01_tsv_roundtrip_key_refuted :
+(* that exclusion is real: the reader rejects the writer's output for one empty cell in one column *)
+Theorem C01_tsv_single_empty_cell_refuted :
   exists recs, rect recs = true /\ obind (write_tsv false false recs) (read_tsv true false) <> Some recs.
-Proof. exact tsv_roundtrip_key_backslash_refuted. Qed.
-Print Assumptions C01_tsv_roundtrip_key_refuted.
+Proof. exact tsv_single_empty_cell_refuted. Qed.
+Print Assumptions C01_tsv_single_empty_cell_refuted.
 
-Theorem C01_tsv_roundtrip_value_bytes_refuted :
-  exists recs, rect recs = true /\ obind (write_tsv false false recs) (read_tsv true false) <> Some recs.
-Proof. exact tsv_value_bytes_refuted. Qed.
-Print Assumptions C01_tsv_roundtrip_value_bytes_refuted.
+(* without a header line: --headerless-tsv-output then --implicit-tsv-header, keys 1..n (same exclusion) *)
+Theorem C01_tsv_roundtrip_headerless :
+  forall crlf dedupe ragged recs, wf_tsv_pos recs = true ->
+  obind (write_tsv true crlf recs) (read_tsv_implicit dedupe ragged) = Some recs.
+Proof. exact tsv_roundtrip_headerless. Qed.
+Print Assumptions C01_tsv_roundtrip_headerless.
 
 (* ---- DKVP ---- *)
 (* any non-empty IFS/IPS (multi-byte allowed) free of CR/LF, IPS sharing no byte with IFS; keys free of the
@@ -141,11 +139,11 @@ Proof. exact nidx_ws_roundtrip. Qed.
 Print Assumptions C01_nidx_default_roundtrip.
 
 (* idempotence of `mlr --F cat` on its own output, as corollaries *)
-Theorem C01_tsv_idempotent_partial :
+Theorem C01_tsv_idempotent :
   forall crlf dedupe ragged recs, wf_tsv recs = true ->
   obind (obind (write_tsv false crlf recs) (read_tsv dedupe ragged)) (write_tsv false crlf) = write_tsv false crlf recs.
 Proof. exact (fun crlf dedupe ragged recs H => f_equal (fun x => obind x (write_tsv false crlf)) (tsv_roundtrip crlf dedupe ragged recs H)). Qed.
-Print Assumptions C01_tsv_idempotent_partial.
+Print Assumptions C01_tsv_idempotent.
 
 Theorem C01_csv_idempotent_partial :
   forall qa crlf comma lazy dedupe ragged recs, wf_csv crlf comma recs = true ->
@@ -154,11 +152,52 @@ Theorem C01_csv_idempotent_partial :
 Proof. exact (fun qa crlf comma lazy dedupe ragged recs H => f_equal (fun x => obind x (write_csv false qa crlf comma)) (csv_roundtrip qa crlf comma lazy dedupe ragged recs H)). Qed.
 Print Assumptions C01_csv_idempotent_partial.
 
+(* ---- JSON ---- *)
+(* millerJSONEncodeString against an RFC-8259 string decoder written in Gallina (ModelJson.jstep: the two-character
+   escapes, \/ , \uXXXX with either hex case and UTF-8 re-encoding, unescaped control characters rejected):
+   the decoder recovers EVERY byte string from Miller's encoding *)
+Theorem C01_json_string_rfc8259 : forall s, ref_decode_string (json_string s) = Some s.
+Proof. exact json_string_decodes. Qed.
+Print Assumptions C01_json_string_rfc8259.
+
+(* the RFC-8259 reference reader recovers every string-valued record stream (unique member names per record) from the
+   JSON writer's output: --ojson multi-line and --no-jvstack, with and without the outer list, and JSON Lines.
+   _partial: non-string values (number re-rendering, nested maps) are not modelled, and the reference stands in for
+   Go's encoding/json, to which it is tied by the correspondence check on valid-UTF-8 text only *)
+Theorem C01_json_roundtrip_strings_partial :
+  forall ml wrap recs, forallb (fun r => nodupb (keys r)) recs = true ->
+  read_json_ref (write_json ml wrap recs) = Some recs.
+Proof. exact json_roundtrip. Qed.
+Print Assumptions C01_json_roundtrip_strings_partial.
+
+(* ---- XTAB ---- *)
+(* for EVERY display-width function w (lib.DisplayWidth is a parameter of the writer model), one-byte IPS = OPS = c:
+   non-empty records with unique keys, keys free of c and LF, values free of LF, not starting with c, not ending in CR *)
+Theorem C01_xtab_roundtrip :
+  forall w c dedupe recs, wf_xtab c recs = true -> read_xtab [c] dedupe (write_xtab w [c] false recs) = Some recs.
+Proof. exact xtab_roundtrip. Qed.
+Print Assumptions C01_xtab_roundtrip.
+
+(* ---- csvlite ---- *)
+(* heterogeneous streams included: a change of keys writes a blank line and a new header, which the reader takes as a
+   schema change.  One-byte OFS = IFS = c (not CR, LF, 0xEF); records non-empty with unique keys; cells free of c, CR, LF
+   (csvlite has no quoting; CR inside a cell is excluded for simplicity, only a trailing one is not representable);
+   keys free of "," ; not a single empty field; first key not starting with byte 0xEF *)
+Theorem C01_csvlite_roundtrip :
+  forall c crlf dedupe ragged recs, wf_lite c recs = true ->
+  read_csvlite [c] dedupe ragged (write_csvlite [c] false crlf recs) = Some recs.
+Proof. exact csvlite_roundtrip. Qed.
+Print Assumptions C01_csvlite_roundtrip.
+
 (* non-vacuity: concrete non-trivial streams inside each domain *)
 Example C01_nonvacuous :
-  wf_tsv [[(B "a", B "x	y\z"); (B "b c", bs [195;169;10;13]%N); (B "", B "")]; [(B "a", B ""); (B "b c", B "-"); (B "", B """q"",")]] = true
+  wf_tsv [[(B "a\b", B "x	y\z"); (bs [98;9;13;10;255]%N, bs [195;169;10;13;255;192]%N); (B "", B "")]; [(B "a\b", B ""); (bs [98;9;13;10;255]%N, B "-"); (B "", B """q"",")]] = true
+  /\ wf_tsv_pos [[(B "1", B ""); (B "2", bs [9;255]%N)]; [(B "1", B "\"); (B "2", B "")]] = true
   /\ wf_dkvp (B ";;") (B ":=") false [[(B "k 1", B "v=1,2"); (B "", bs [13;65]%N)]; []; [(B "x", B "")]] = true
   /\ wf_nidx (B " ") false [[(B "1", B "a,b"); (B "2", B "=")]; []] = true
+  /\ wf_lite ";" [[(B "a", B "1,2"); (B "b c", B "")]; [(B "a", B ""); (B "b c", B "-")]; [(B "z", B "x"); (B "a", B "y"); (B "", B "")]; [(B "a", B "3"); (B "b c", B "4")]] = true
+  /\ wf_xtab " " [[(B "", B "x  y"); (B "long-key", B ""); (B "k", bs [195;169;13;65]%N)]; [(B "z", B "1")]] = true
+  /\ forallb (fun r => nodupb (keys r)) [[(B "a""b", bs [1;31;10;92;255]%N); (B "", B "")]; []] = true
   /\ forallb (wf_nidx_ws_rec false) [[(B "1", B "a,b"); (B "2", B "="); (B "3", bs [195;169]%N)]; []] = true
-  /\ utf8_valid (bs [240;159;152;128;9;92]%N) = true.
+.
 Proof. vm_compute. repeat split; reflexivity. Qed.
